@@ -137,6 +137,9 @@ pub struct ProbeSrc {
     pub key: String,
     pub probe: String,
     pub control: Option<String>,
+    /// error codes of which at least one must be among rustc's diagnostics when the probe is rejected; anything
+    /// else means the probe template is broken (rejected for a reason unrelated to the property)
+    pub expect: &'static [&'static str],
 }
 const PRELUDE: &str = r#"#![forbid(unsafe_code)]
 #![allow(unused, dead_code)]
@@ -199,26 +202,27 @@ fn uses() -> Vec<(&'static str, &'static str)> {
     vec![("read", "read(t)"), ("connect", "{ let other = Terminal::<()>::new(); connect(t, &other); read(&other) }")]
 }
 
+const BORROWCK: &[&str] = &["E0505", "E0597", "E0716", "E0499", "E0502", "E0506"];
 pub fn probes() -> Vec<ProbeSrc> {
     let mut v = Vec::new();
     for (aname, ctor, call) in accessors() {
         for (sname, kill, keep) in scenarios() {
             for (uname, usage) in uses() {
                 let body = |middle: &str| format!("{}pub fn probe() -> Option<Datum<State>> {{\n    let d = {};\n    let t = d.{};\n    {}\n    {}\n}}\n", PRELUDE, ctor, call, middle, usage);
-                v.push(ProbeSrc { id: format!("{}/{}/{}", aname, sname, uname), key: format!("C16/lifetime/{}/{}", aname, sname), probe: body(kill), control: Some(body(keep)) });
+                v.push(ProbeSrc { id: format!("{}/{}/{}", aname, sname, uname), key: format!("C16/lifetime/{}/{}", aname, sname), probe: body(kill), control: Some(body(keep)), expect: BORROWCK });
             }
         }
         // the reference escapes the device's scope
         let probe = format!("{}pub fn probe() -> Option<Datum<State>> {{\n    let t;\n    {{\n        let d = {};\n        t = d.{};\n    }}\n    read(t)\n}}\n", PRELUDE, ctor, call);
         let control = format!("{}pub fn probe() -> Option<Datum<State>> {{\n    let t;\n    let d = {};\n    {{\n        t = d.{};\n    }}\n    read(t)\n}}\n", PRELUDE, ctor, call);
-        v.push(ProbeSrc { id: format!("{}/escape-scope/read", aname), key: format!("C16/lifetime/{}/escape-scope", aname), probe, control: Some(control) });
+        v.push(ProbeSrc { id: format!("{}/escape-scope/read", aname), key: format!("C16/lifetime/{}/escape-scope", aname), probe, control: Some(control), expect: BORROWCK });
         // connect to a longer-lived terminal, then drop the device: the survivor's link dangles
         let probe = format!("{}pub fn probe() -> Option<Datum<State>> {{\n    let ext = Terminal::<()>::new();\n    {{\n        let d = {};\n        connect(d.{}, &ext);\n    }}\n    read(&ext)\n}}\n", PRELUDE, ctor, call);
         let control = format!("{}pub fn probe() -> Option<Datum<State>> {{\n    let ext = Terminal::<()>::new();\n    let d = {};\n    {{\n        connect(d.{}, &ext);\n    }}\n    read(&ext)\n}}\n", PRELUDE, ctor, call);
-        v.push(ProbeSrc { id: format!("{}/connect-survivor-then-drop/read", aname), key: format!("C16/lifetime/{}/connect-survivor-then-drop", aname), probe, control: Some(control) });
+        v.push(ProbeSrc { id: format!("{}/connect-survivor-then-drop/read", aname), key: format!("C16/lifetime/{}/connect-survivor-then-drop", aname), probe, control: Some(control), expect: BORROWCK });
     }
     // dangling borrows / References without `unsafe`
-    let simple = |id: &str, key: &str, body: &str, control: Option<&str>| ProbeSrc { id: id.to_string(), key: key.to_string(), probe: format!("{}{}", PRELUDE, body), control: control.map(|c| format!("{}{}", PRELUDE, c)) };
+    let simple = |id: &str, key: &str, body: &str, control: Option<&str>| ProbeSrc { id: id.to_string(), key: key.to_string(), probe: format!("{}{}", PRELUDE, body), control: control.map(|c| format!("{}{}", PRELUDE, c)), expect: &[] };
     v.push(simple(
         "Borrow::Ptr/construct-dangling",
         "C16/lifetime/Borrow::Ptr/construct-in-safe-code",
@@ -231,21 +235,33 @@ pub fn probes() -> Vec<ProbeSrc> {
         "pub fn probe() -> i32 {\n    let mut b: reference::BorrowMut<'static, i32> = { let mut x = 5i32; reference::BorrowMut::Ptr(&mut x as *mut i32, core::marker::PhantomData) };\n    *b = 6;\n    *b\n}\n",
         Some("pub fn probe() -> i32 {\n    let r = rc_ref_cell_reference(5i32);\n    let mut b: reference::BorrowMut<'_, i32> = r.borrow_mut();\n    *b = 6;\n    *b\n}\n"),
     ));
-    v.push(simple("Reference::from_ptr/outside-unsafe", "C16/lifetime/Reference::from_ptr/callable-in-safe-code", "pub fn probe() -> i32 {\n    let r = { let mut x = 5i32; Reference::from_ptr(&mut x as *mut i32) };\n    *r.borrow()\n}\n", None));
-    v.push(simple("Reference::from_ptr_rw_lock/outside-unsafe", "C16/lifetime/Reference::from_ptr_rw_lock/callable-in-safe-code", "pub fn probe() -> i32 {\n    let r = { let x = std::sync::RwLock::new(5i32); Reference::from_ptr_rw_lock(&x as *const std::sync::RwLock<i32>) };\n    *r.borrow()\n}\n", None));
-    v.push(simple("Reference::from_ptr_mutex/outside-unsafe", "C16/lifetime/Reference::from_ptr_mutex/callable-in-safe-code", "pub fn probe() -> i32 {\n    let r = { let x = std::sync::Mutex::new(5i32); Reference::from_ptr_mutex(&x as *const std::sync::Mutex<i32>) };\n    *r.borrow()\n}\n", None));
-    v.push(simple("ReferenceUnsafe::Ptr/borrow-outside-unsafe", "C16/lifetime/ReferenceUnsafe::borrow/callable-in-safe-code", "pub fn probe() -> i32 {\n    let r = { let mut x = 5i32; reference::ReferenceUnsafe::Ptr(&mut x as *mut i32) };\n    *r.borrow()\n}\n", None));
-    v.push(simple("ReferenceUnsafe::Ptr/into-Reference", "C16/lifetime/ReferenceUnsafe/convertible-to-Reference", "pub fn probe() -> i32 {\n    let r: Reference<i32> = { let mut x = 5i32; reference::ReferenceUnsafe::Ptr(&mut x as *mut i32).into() };\n    *r.borrow()\n}\n", None));
+    v.push(simple("Reference::from_ptr/outside-unsafe", "C16/lifetime/Reference::from_ptr/callable-in-safe-code", "pub fn probe() -> i32 {\n    let r = { let mut x = 5i32; Reference::from_ptr(&mut x as *mut i32) };\n    let out = *r.borrow();\n    out\n}\n", None));
+    v.push(simple("Reference::from_ptr_rw_lock/outside-unsafe", "C16/lifetime/Reference::from_ptr_rw_lock/callable-in-safe-code", "pub fn probe() -> i32 {\n    let r = { let x = std::sync::RwLock::new(5i32); Reference::from_ptr_rw_lock(&x as *const std::sync::RwLock<i32>) };\n    let out = *r.borrow();\n    out\n}\n", None));
+    v.push(simple("Reference::from_ptr_mutex/outside-unsafe", "C16/lifetime/Reference::from_ptr_mutex/callable-in-safe-code", "pub fn probe() -> i32 {\n    let r = { let x = std::sync::Mutex::new(5i32); Reference::from_ptr_mutex(&x as *const std::sync::Mutex<i32>) };\n    let out = *r.borrow();\n    out\n}\n", None));
+    v.push(simple("ReferenceUnsafe::Ptr/borrow-outside-unsafe", "C16/lifetime/ReferenceUnsafe::borrow/callable-in-safe-code", "pub fn probe() -> i32 {\n    let r = { let mut x = 5i32; reference::ReferenceUnsafe::Ptr(&mut x as *mut i32) };\n    let out = *r.borrow();\n    out\n}\n", None));
+    v.push(simple("ReferenceUnsafe::Ptr/into-Reference", "C16/lifetime/ReferenceUnsafe/convertible-to-Reference", "pub fn probe() -> i32 {\n    let r: Reference<i32> = { let mut x = 5i32; reference::ReferenceUnsafe::Ptr(&mut x as *mut i32).into() };\n    let out = *r.borrow();\n    out\n}\n", None));
     v.push(simple(
         "to_dyn/duck-typed-into_inner",
         "C16/lifetime/to_dyn/accepts-any-into_inner",
         "pub struct Fake(*mut i32);\nimpl Fake {\n    pub fn into_inner(self) -> reference::ReferenceUnsafe<i32> {\n        reference::ReferenceUnsafe::Ptr(self.0)\n    }\n}\npub trait Val {\n    fn v(&self) -> i32;\n}\nimpl Val for i32 {\n    fn v(&self) -> i32 {\n        *self\n    }\n}\npub fn probe() -> i32 {\n    let r: Reference<dyn Val> = { let mut x = 5i32; to_dyn!(Val, Fake(&mut x as *mut i32)) };\n    let out = r.borrow().v();\n    out\n}\n",
         Some("pub trait Val {\n    fn v(&self) -> i32;\n}\nimpl Val for i32 {\n    fn v(&self) -> i32 {\n        *self\n    }\n}\npub fn probe() -> i32 {\n    let r: Reference<dyn Val> = to_dyn!(Val, rc_ref_cell_reference(5i32));\n    let out = r.borrow().v();\n    out\n}\n"),
     ));
-    v.push(simple("static_reference/non-static-initialiser", "C16/lifetime/static_reference/local-initialiser", "pub fn probe() -> i32 {\n    let x = 5i32;\n    let r = static_reference!(i32, x);\n    *r.borrow()\n}\n", None));
+    v.push(simple("static_reference/non-static-initialiser", "C16/lifetime/static_reference/local-initialiser", "pub fn probe() -> i32 {\n    let x = 5i32;\n    let r = static_reference!(i32, x);\n    let out = *r.borrow();\n    out\n}\n", None));
     v.push(simple("rc_ref_cell_reference/borrow-outlives-reference", "C16/lifetime/Reference::borrow/outlives-reference", "pub fn probe() -> i32 {\n    let b = { let r = rc_ref_cell_reference(5i32); r.borrow() };\n    *b\n}\n", Some("pub fn probe() -> i32 {\n    let r = rc_ref_cell_reference(5i32);\n    let b = r.borrow();\n    *b\n}\n")));
     v.push(simple("GetterFromHistory/history-outlived", "C16/lifetime/GetterFromHistory/history-outlived", "pub fn probe() -> Output<Command, ()> {\n    let clock = rc_ref_cell_reference(Time(1));\n    let g = { let mut mp = MotionProfile::new(State::new_raw(0.0,0.0,0.0), State::new_raw(3.0,0.0,0.0), Quantity::new(0.1, MILLIMETER_PER_SECOND), Quantity::new(0.01, MILLIMETER_PER_SECOND_SQUARED)); GetterFromHistory::new_no_delta(&mut mp, clock.clone()) };\n    g.get()\n}\n", Some("pub fn probe() -> Output<Command, ()> {\n    let clock = rc_ref_cell_reference(Time(1));\n    let mut mp = MotionProfile::new(State::new_raw(0.0,0.0,0.0), State::new_raw(3.0,0.0,0.0), Quantity::new(0.1, MILLIMETER_PER_SECOND), Quantity::new(0.01, MILLIMETER_PER_SECOND_SQUARED));\n    let g = GetterFromHistory::new_no_delta(&mut mp, clock.clone());\n    g.get()\n}\n")));
     v.push(simple("Terminal/connect-then-drop-one", "C16/lifetime/connect/partner-dropped", "pub fn probe() -> Option<Datum<State>> {\n    let a = Terminal::<()>::new();\n    {\n        let b = Terminal::<()>::new();\n        connect(&a, &b);\n    }\n    read(&a)\n}\n", Some("pub fn probe() -> Option<Datum<State>> {\n    let a = Terminal::<()>::new();\n    let b = Terminal::<()>::new();\n    {\n        connect(&a, &b);\n    }\n    read(&a)\n}\n")));
+    for p in v.iter_mut() {
+        if p.expect.is_empty() {
+            p.expect = match p.id.as_str() {
+                "Borrow::Ptr/construct-dangling" | "BorrowMut::Ptr/construct-dangling" => &["E0603", "E0639"],
+                "Reference::from_ptr/outside-unsafe" | "Reference::from_ptr_rw_lock/outside-unsafe" | "Reference::from_ptr_mutex/outside-unsafe" | "ReferenceUnsafe::Ptr/borrow-outside-unsafe" => &["E0133"],
+                "ReferenceUnsafe::Ptr/into-Reference" => &["E0277"],
+                "static_reference/non-static-initialiser" => &["E0435"],
+                "to_dyn/duck-typed-into_inner" => &["E0308"],
+                _ => BORROWCK,
+            };
+        }
+    }
     v
 }
 
@@ -340,7 +356,7 @@ fn compile_all() -> ProbeResults {
                     .arg(file)
                     .output();
                 let outcome = match o {
-                    Ok(o) => Outcome { accepted: o.status.success(), diagnostics: String::from_utf8_lossy(&o.stderr).lines().filter(|l| l.contains("error")).take(3).collect::<Vec<_>>().join(" | ") },
+                    Ok(o) => Outcome { accepted: o.status.success(), diagnostics: String::from_utf8_lossy(&o.stderr).lines().filter(|l| l.contains("error")).take(12).collect::<Vec<_>>().join(" | ") },
                     Err(e) => Outcome { accepted: false, diagnostics: format!("cannot run rustc: {}", e) },
                 };
                 results.lock().unwrap().insert((id.clone(), *control), outcome);
@@ -383,6 +399,10 @@ fn check_probe(id: &str, control: bool) -> CheckResult {
         id,
         p.probe.replace(PRELUDE, "<prelude>\n")
     );
+    if !p.expect.iter().any(|c| o.diagnostics.contains(c)) {
+        eprintln!("INFRASTRUCTURE: probe {} is rejected, but not for the reason it was written for (expected one of {:?}): {}", id, p.expect, o.diagnostics);
+        std::process::exit(2);
+    }
     let has_control = p.control.is_some();
     Ok(CaseInfo::new(has_control, hash_of(&(id, false))).class("probe rejected by the compiler").class_if(o.diagnostics.contains("E0505") || o.diagnostics.contains("E0597") || o.diagnostics.contains("E0716"), "rejected by the borrow checker").class_if(o.diagnostics.contains("E0133"), "rejected: unsafe call outside unsafe"))
 }
